@@ -268,6 +268,14 @@ class Run(object):
         return 0
 
 # ---------------------------------------------------------------------------------------
+def patience(base):
+    """a time budget in seconds scaled by the machine's load (never below `base`): watchdogs must not turn a busy machine into a verdict"""
+    try:
+        load = os.getloadavg()[0] / float(os.cpu_count() or 1)
+    except OSError:
+        load = 0.0
+    return int(base * max(1.0, min(8.0, 2.0 * load)) + 0.5)
+
 def native_run(script_path, timeout=120):
     """run a replay script under the repo's own interpreter; returns (exit, output)"""
     env = dict(os.environ)
